@@ -131,6 +131,14 @@ class Peer:
             if what[0] == "empty":
                 payload = b""
                 self.sent.append(None)
+            elif what[0] == "batch":
+                # several tasks queued for the beacon are delivered in one response: | epoch | total | (command | size | data)* |
+                _, epoch, tasks = what
+                recs = b"".join(struct.pack(">II", cmd, len(d)) + d for cmd, d in tasks)
+                pt = struct.pack(">II", epoch, len(recs)) + recs
+                ct, sig = R.ref_encrypt_packet(pt, self.keys[0], self.keys[1], b"abcdefghijklmnop")
+                payload = ct + sig
+                self.sent.append(("batch", epoch, [tuple(t) for t in tasks]))
             else:
                 _, epoch, command, data = what
                 pt = struct.pack(">IIII", epoch, 8 + len(data), command, len(data)) + data
@@ -198,6 +206,12 @@ def run_session(case):
         except Exception as e:  # noqa: BLE001
             obs["errors"].append(f"client set-up for a well-formed HTTP configuration raised {type(e).__name__}: {e}")
             return cfg, model, key, c, peer, trace, obs
+        if case["seed"] % 5 == 0:
+            # run(writer=...): packets are also written as records; must not disturb the exchange
+            import types as _types
+
+            obs["records"] = []
+            c.writer = _types.SimpleNamespace(write=obs["records"].append, flush=lambda: None)
         for ev in case["history"]:
             kind = ev[0]
             if kind == "checkin":
@@ -208,12 +222,32 @@ def run_session(case):
                     obs["errors"].append(f"get_task raised {type(e).__name__}: {e}")
                     t = "EXC"
                 obs["tasks"].append(None if t is None else t if t == "EXC" else (t.epoch, int(t.command), t.size, bytes(t.data)))
+                if ev[1][0] == "batch":
+                    # the remaining tasks of the same response: no further request may be needed for them
+                    n_req = sum(1 for d, w, k in trace if d == "request")
+                    for _ in range(len(ev[1][2]) - 1):
+                        try:
+                            t = c.get_task()
+                        except Exception as e:  # noqa: BLE001
+                            obs["errors"].append(f"get_task raised {type(e).__name__}: {e}")
+                            t = "EXC"
+                        obs["tasks"].append(None if t is None else t if t == "EXC" else (t.epoch, int(t.command), t.size, bytes(t.data)))
+                    if sum(1 for d, w, k in trace if d == "request") != n_req:
+                        obs["errors"].append("tasks delivered in one response were not all handed out: the client polled again before handing out the remaining ones")
             elif kind == "callback":
                 random.seed(rng.getrandbits(32))
                 counter0 = c.counter
                 try:
-                    # the callback id is an int by signature; the enum member is an int too
-                    c.send_callback(BeaconCallback(ev[1]) if case["seed"] % 2 else int(ev[1]), ev[2])
+                    # the callback id is an int by signature; the IntEnum member and the wire enum member (the type of
+                    # CallbackPacket.callback, i.e. what a decoder hands out) are ints too; ids outside the table stay ints
+                    kind_of_id = (case["seed"] + len(obs["callbacks"])) % 3
+                    if kind_of_id == 1 and ev[1] in set(BeaconCallback):
+                        cb = BeaconCallback(ev[1])
+                    elif kind_of_id == 2:
+                        cb = c2.c2struct.BeaconCallback(ev[1])
+                    else:
+                        cb = int(ev[1])
+                    c.send_callback(cb, ev[2])
                     obs["callbacks"].append((counter0 + 1, ev[1], ev[2]))
                 except Exception as e:  # noqa: BLE001
                     obs["errors"].append(f"send_callback raised {type(e).__name__}: {e}")
@@ -226,9 +260,7 @@ def run_session(case):
                     out += c2.encrypt_packet(pkt.dumps(), **c.c2http.beacon_keys._asdict()).dumps()
                     obs["callbacks"].append((c.counter, cbid, data))
                 req = c.c2http.transform_submit.transform(c2.ClientC2Data(id=str(c.beacon_id).encode(), output=out), request=c._initial_post_request())
-                import urllib.parse
-
-                url = urllib.parse.urljoin(c.base_url, req.uri.decode())
+                url = c.base_url + req.uri.decode()  # the URI is a path on the C2 host
                 fake_request(req.method, url, headers=req.headers, params={k.decode(): v.decode() for k, v in req.params.items()}, content=req.body)
             elif kind == "unrelated":
                 how = ev[1]
@@ -308,7 +340,10 @@ def expected_trace(trace, client, peer, obs, with_metadata):
             exp.append(("ok", [md] if with_metadata else []))
         elif direction == "response" and what == "get":
             s = sent.pop(0)
-            exp.append(("ok", [] if s is None else [("task", s[0], s[1], len(s[2]), s[2])]))
+            if s is not None and s[0] == "batch":
+                exp.append(("ok", [("task", s[1], cmd, len(d), d) for cmd, d in s[2]]))
+            else:
+                exp.append(("ok", [] if s is None else [("task", s[0], s[1], len(s[2]), s[2])]))
         elif direction == "request" and what == "post":
             n = post_groups[gi]
             gi += 1
@@ -333,7 +368,10 @@ def judge(case, ctx):
         ctx.mon("client.get_task")
     want_tasks = []
     for s in peer.sent:
-        want_tasks.append(None if s is None or s[1] == 6 else (s[0], s[1], len(s[2]), s[2]))
+        if s is not None and s[0] == "batch":
+            want_tasks += [(s[1], cmd, len(d), d) for cmd, d in s[2]]
+        else:
+            want_tasks.append(None if s is None or s[1] == 6 else (s[0], s[1], len(s[2]), s[2]))
     if obs["tasks"] != want_tasks:
         i = next((k for k, (a, b) in enumerate(zip(obs["tasks"], want_tasks)) if a != b), 0)
         return ("client.get_task", f"check-in #{i}: get_task() returned {core.short(obs['tasks'][i] if i < len(obs['tasks']) else None)} but the server sent {core.short(want_tasks[i] if i < len(want_tasks) else None)}", "response")
@@ -456,8 +494,11 @@ def gen_history(rng):
     for _ in range(n):
         r = rng.random()
         if r < 0.45:
-            k = rng.choice(["nothing", "empty", "noop", "task", "task", "task"])
-            if k == "noop":
+            k = rng.choice(["nothing", "empty", "noop", "task", "task", "task", "batch"])
+            if k == "batch":
+                tasks = [(rng.choice([1, 2, 3, 4, 5, 27, 32, 39, 53, 100]), rng.randbytes(rng.choice([0, 1, 8, 9, 11, 16, 100]))) for _ in range(rng.randrange(2, 5))]
+                hist.append(("checkin", ("batch", epoch + rng.randrange(0, 10000), tasks)))
+            elif k == "noop":
                 hist.append(("checkin", ("task", epoch, 6, b"")))
             elif k == "task":
                 ln = rng.choice([0, 1, 15, 16, 17, 100, rng.randrange(0, 4097)])
@@ -465,7 +506,7 @@ def gen_history(rng):
             else:
                 hist.append(("checkin", (k,)))
         elif r < 0.75:
-            hist.append(("callback", rng.choice([0, 17, 19, 30, 31, 32]), rng.randbytes(rng.choice([0, 1, 16, 200, rng.randrange(0, 3000)]))))
+            hist.append(("callback", rng.choice([0, 17, 19, 30, 31, 32, 32, 33, 99]), rng.randbytes(rng.choice([0, 1, 16, 200, rng.randrange(0, 3000)]))))
         elif r < 0.85:
             hist.append(("multi", [(rng.choice([0, 30, 32]), rng.randbytes(rng.choice([0, 5, 64, 500]))) for _ in range(rng.randrange(2, 5))]))
         else:
